@@ -92,12 +92,12 @@ fn read_file_case(format: Format, game: truth::Game, optbits: u32, bytes: &[u8])
 impl Prop for C16 {
     fn id(&self) -> &'static str { "C16" }
     fn relation(&self) -> &'static str {
-        "result (parsed instruction / terminal / eof / error class, bytes left) of InstrFormat::read_instr and llir::read_instrs on arbitrary byte strings == Lean `InstrIO.readInstr` / `readInstrs`"
+        "instruction level: result (parsed instruction / terminal / eof / error class, bytes left) of InstrFormat::read_instr and llir::read_instrs on arbitrary byte strings == Lean `InstrIO.readInstr` / `readInstrs`; container level: outcome (parsed structure / error class / panic site) of MsgFile / StdFile / MissionMsgFile / OldeEclFile::read_from_stream on arbitrary byte strings == Lean `Files.readMsg` / `readStd` / `readMission` / `readEcl`"
     }
     fn rule(&self) -> &'static str {
-        "instruction level: valid encodings of every header layout, their truncations at every length and field-targeted mutations, random bytes; file level: compiler outputs of generated sources of every format/game and all bundled binaries, mutated by truncation, bit flips, 16/32-bit field overwrites with boundary values, off-by-one nudges, appended garbage; each read + decompiled under a random subset of the five --no-* options (+ image extraction for ANM); oracle: no panic/abort/timeout(20 s), peak heap <= 64 x input + 64 MiB (counting allocator), failure implies an error diagnostic; non-trivial = mutated (not the pristine file); distinct by case text"
+        "instruction level: valid encodings of every header layout, their truncations at every length and field-targeted mutations, random bytes; container level, compared with the model (MSG, STD both layouts, mission MSG, old ECL): compiler outputs of generated sources and the bundled binaries, pristine, truncated at every offset (small files) or sampled offsets, every aligned dword of the header / table region set to 0, all ones and the file length, count / offset / size fields overwritten with boundary values and nudged by small deltas, random damage, and random / all-zero / all-ones byte strings; offset tables whose entries share one target (read only, peak heap against the bound); file level: compiler outputs of generated sources of every format/game and all bundled binaries, mutated by truncation, bit flips, 16/32-bit field overwrites with boundary values, off-by-one nudges, appended garbage; each read + decompiled under a random subset of the five --no-* options (+ image extraction for ANM); oracle: no panic/abort/timeout(20 s), peak heap <= 64 x input + 64 MiB (counting allocator), failure implies an error diagnostic; non-trivial = mutated (not the pristine file); distinct by case text"
     }
-    fn theorems(&self) -> &'static [&'static str] { &["TruthModel.C16.readInstr_no_panic", "TruthModel.C16.readInstrs_fuel_suffices"] }
+    fn theorems(&self) -> &'static [&'static str] { &["TruthModel.C16.readInstr_no_panic", "TruthModel.C16.readInstrs_fuel_suffices", "TruthModel.C16.msg_read_no_panic", "TruthModel.C16.msg_read_total", "TruthModel.C16.std_read_no_panic", "TruthModel.C16.std_read_total", "TruthModel.C16.mission_read_no_panic", "TruthModel.C16.mission_read_total", "TruthModel.C16.ecl_read_panic_site", "TruthModel.C16.ecl_read_total", "TruthModel.C16.std_read_alloc_bound", "TruthModel.C16.ecl_read_alloc_bound"] }
 
     fn gen(&self, tier: Tier, rng: &mut Rng) -> Vec<Case> {
         let scale = if tier == Tier::Quick { 1 } else { 30 };
@@ -141,6 +141,9 @@ impl Prop for C16 {
                 out.push(Case::corr(Sexp::List(v)).tag(format!("rinstrs-random-{}", f.2)));
             }
         }
+        // container level, compared with the model: MSG / STD / mission / old ECL files, pristine and damaged
+        out.extend(super::files::gen_cases(rng, scale, true));
+        out.extend(super::files::amplification_cases());
         // file level
         let mut seeds: Vec<(Format, truth::Game, Vec<u8>, String)> = bundled_files();
         for _ in 0..60 * scale.min(5) {
@@ -163,6 +166,8 @@ impl Prop for C16 {
         match case.head() {
             Some("rinstr") => eval_rinstr(case),
             Some("rinstrs") => eval_rinstrs(case),
+            Some("rfile") => super::files::eval_rfile(case),
+            Some("readalloc") => super::files::eval_readalloc(case),
             Some("readfile") => {
                 let a = case.args();
                 read_file_case(Format::from_name(a[0].as_atom()), tc::game(a[1].as_atom()), a[2].as_i64() as u32, &unhex(a[3].as_atom()))
